@@ -216,6 +216,9 @@ class NP:
     def zeros(self, shape, dtype=float):
         if isinstance(shape, SI):
             return vecs.const_vec(shape.t, 0.0)
+        if isinstance(shape, tuple) and len(shape) == 2 and any(isinstance(d, SI) for d in shape):
+            z = SF.lift(0.0)
+            return vecs.SM2(it(shape[0]), it(shape[1]), lambda r, q: z)
         return _np.zeros(shape, dtype=dtype)
 
     def ones(self, shape, dtype=float):
